@@ -116,7 +116,9 @@ Definition track (m : mstate) (o : op) (ob : obs) (probes : list (option payload
       let c := match bc, auth with Some b, _ => b | None, Some x => x | None, None => 0 end in
       add (map (fun k => {| ci_kind := k; ci_client := c; ci_family := base; ci_pair := None;
                             ci_challenge := az_challenge a; ci_method := az_method a; ci_redirect := az_redirect a;
-                            ci_scopes := az_scopes a; ci_aud := az_aud a; ci_subject := ""; ci_issued := tnow; ci_decision := 0 |}) (o_minted ob))
+                            ci_scopes := az_scopes a; ci_aud := az_aud a;
+                            ci_subject := az_mode a;   (* request_uris: the pushed response_mode *)
+                            ci_issued := tnow; ci_decision := 0 |}) (o_minted ob))
   | OAuthorizePAR _ uri a =>
       match cred m uri with
       | Some (pi, pc) =>
@@ -589,6 +591,8 @@ Definition judge_C17 (cfg : config) : judge_t := fun m o ob pr =>
             if memn i (m_redeemed m) then (Some "request_uri_started_a_second_authorization", [], [])
             else if negb (Nat.eqb cp (ci_client c)) then (Some "request_uri_used_by_another_client", [], [])
             else if Z.ltb (ci_issued c + cf_par_life cfg) (m_now m) then (Some "request_uri_honoured_after_expiry", [], [])
+            else if negb (list_eqb (o_scopes ob) (if String.eqb (ci_subject c) "" || String.eqb (ci_subject c) "query" then [] else [ci_subject c]))
+                 then (Some "authorization_did_not_proceed_in_the_pushed_response_mode", [], [])
             else (None, [], [])
         | None => (Some "unknown_request_uri_started_an_authorization", [], [])
         end
